@@ -159,6 +159,11 @@ def strip(r):
 
 
 # ------------------------------------------------------------------------------------------ the check
+def _rows_job(a):
+    from ..drive import rows
+    return rows.run(*a)
+
+
 def run(ctx):
     quick = ctx.quick
     rng = random.Random(ctx.seed)
@@ -294,6 +299,24 @@ def run(ctx):
             "done[0] and next_done, next value); grid: columns printed by TLC (every done placement x gamma x lambda, "
             "k value vectors each) packed into calls; random: seeded larger rollouts; non-trivial = the rollout "
             "contains at least one episode boundary")
+    # ---- minibatch clause (Rows.tla): every minibatch row is the flattened row of its index
+    from concurrent.futures import ProcessPoolExecutor as _PPE
+    ctx.mc("Rows", "Rows_MC.cfg", must_cover=["Next|Minibatch"])
+    rjobs = []
+    rj = 0
+    for algo, fams in (("PPO", ["vector", "dict", "image", "discrete"]), ("IPPO", ["vector", "image", "discrete"])):
+        for fam in fams:
+            for bs in (2, 3, 8, 64):          # 64 >= number of samples: one minibatch is the whole rollout
+                rjobs.append((algo, fam, bs, 1 + rj % 2, ctx.seed + rj))
+                rj += 1
+    with _PPE(max_workers=8) as ex:
+        rtraces = list(ex.map(_rows_job, rjobs))
+    for t in rtraces:
+        ctx.case(("rows", str(t["cfg"])), nontrivial=len(t["ev"]) >= 2)
+    ROWS_CFG = "SPECIFICATION TSpec\nCONSTANTS\n  MaxRows = 1\n  BatchSizes = {1}\n  Diag = @DIAG@\nINVARIANT UsedOK\nCHECK_DEADLOCK FALSE\n"
+    ctx.validate("Rows_Trace", ROWS_CFG, rtraces,
+                 sig=lambda t, v: f"rows:{t['cfg']['algo']}:{t['cfg']['family']}:{'full' if t['cfg']['batch_size'] >= 64 else 'part'}:{(v.clauses[0] if v.clauses else v.invariant)[:60]}",
+                 what=lambda t, v: f"minibatch trace rejected at event {v.step}: {v.clauses or v.invariant}; cfg={t['cfg']}; event={str(v.event)[:300]}")
     return "model_checking", rule, False
 
 
